@@ -237,6 +237,9 @@ def to_trace1_psd_cholesky(theta, dim:int, rank:(int|None)=None):
         indexD = torch.arange(rank, dtype=torch.int32, device=theta.device)
         tmp0 = theta[:,rank:]
         tmp1 = torch.nn.functional.softplus(theta[:,:rank])
+        # rescale by the largest entry first (the result is scale invariant): squaring softplus(theta)~exp(theta) underflows in float32 for theta<-45
+        tmp4 = torch.concat([tmp0.abs(), tmp1], dim=1).amax(dim=1, keepdim=True)
+        tmp0,tmp1 = tmp0/tmp4, tmp1/tmp4
         norm_factor = torch.sqrt(torch.linalg.norm(tmp0, axis=1)**2 + torch.linalg.norm(tmp1, axis=1)**2).reshape(-1,1)
         tmp2 = (theta.dtype if is_real else (torch.complex64 if (theta.dtype==torch.float32) else torch.complex128))
         tmp3 = torch.zeros(N1, dim, rank, dtype=tmp2, device=theta.device)
@@ -252,6 +255,9 @@ def to_trace1_psd_cholesky(theta, dim:int, rank:(int|None)=None):
         indexD = np.arange(rank, dtype=np.int32)
         tmp0 = theta[:,rank:]
         tmp1 = _np_softplus(theta[:,:rank])
+        # rescale by the largest entry first (the result is scale invariant): squaring softplus(theta)~exp(theta) underflows in float32 for theta<-45
+        tmp4 = np.concatenate([np.abs(tmp0), tmp1], axis=1).max(axis=1, keepdims=True)
+        tmp0,tmp1 = tmp0/tmp4, tmp1/tmp4
         norm_factor = np.sqrt(np.linalg.norm(tmp0, axis=1)**2 + np.linalg.norm(tmp1, axis=1)**2).reshape(-1,1)
         tmp2 = (theta.dtype if is_real else (np.complex64 if (theta.dtype.type==np.float32) else np.complex128))
         tmp3 = np.zeros((N1, dim, rank), dtype=tmp2)
